@@ -392,3 +392,15 @@ V("c17-doi-unknown-empty", "fault", "C17", F + "doi_data_repositories.py",
   "    if not families:\n        raise KeyError(\n            \"Provided DOI is not associated with any known data or shape families.\"\n        )\n", "", rule="DOI-1")
 V("c17-missing-key", "fault", "C17", F + "doi_data_repositories.py", "ret = self[key] = self.default_factory(key)", "ret = self[str(key)] = self.default_factory(key)", rule="DOI-1")
 V("c17-rw-domain-literal", "rewrite", "C17", F + "plane_shape_families.py", "        if not 1 <= a <= 2:", "        if not 1.0 <= a <= 2.0:")
+
+# ------------------------------------------------------------------------------------------ C18 (data edits are applied textually to the JSON / loader)
+V("c18-iter-wrong-key", "fault", "C18", F + "tabulated_shape_family.py", "            yield (key, self.get_shape(key))", "            yield (key, self.get_shape(self.names[0]))", rule="LOAD-1")
+V("c18-get-shape-default", "fault", "C18", F + "tabulated_shape_family.py", "return from_gsd_type_shapes(self.data[name])", "return from_gsd_type_shapes(self.data.get(name, self._shape_specs[0]))", rule="LOAD-1")
+V("c18-names-sorted", "fault", "C18", F + "tabulated_shape_family.py", "self._shape_names = [*data.keys()]", "self._shape_names = sorted(data.keys())", rule="LOAD-1")
+V("c18-wrong-file", "fault", "C18", F + "common.py", 'os.path.join(_DATA_FOLDER, "catalan.json"),', 'os.path.join(_DATA_FOLDER, "archimedean.json"),', rule="NAMES")
+V("c18-doc-option-typo", "fault", "C18", F + "common.py", '"Tetrakis Hexahedron"', '"Tetrakis Hexaedron"', rule="NAMES")
+D_ = "coxeter/families/data/"
+V("c18-corrupt-coordinate", "fault", "C18", D_ + "platonic.json", "-0.6981312901399714", "-0.6981312901399914", rule="ENTRY")
+V("c18-corrupt-repository-copy", "fault", "C18", D_ + "science1220869.json", "1.249024766483406", "1.249024766483506", rule=None)
+V("c18-type-string", "fault", "C18", D_ + "platonic.json", '"Cube": {\n        "type": "ConvexPolyhedron"', '"Cube": {\n        "type": "Mesh"', rule="ENTRY")
+V("c18-rename-entry", "fault", "C18", D_ + "platonic.json", '"Cube": {', '"Hexahedron": {', rule=None)
